@@ -156,6 +156,12 @@ Fixpoint simple (v : pyv) : bool :=
   end.
 
 (* ------------------------------------------------------------------ expression semantics *)
+(* SyntaxError, which ast.literal_eval raises besides ValueError, as its own kind next to those of Base/Scalar.v *)
+Definition ESyntaxError := 7.
+
+(* truth value of a str: non-emptiness *)
+Definition py_str_truthy (s : string) : bool := negb (String.eqb s "").
+
 Lemma length_append : forall a b, String.length (a ++ b) = (String.length a + String.length b)%nat.
 Proof. induction a as [|c a IH]; intros b; cbn [append String.length]; [reflexivity | now rewrite IH]. Qed.
 
